@@ -7,12 +7,15 @@ from .p_c05 import TREES
 
 MIRI_DIR = os.path.join(core.VERIF, "miri")
 PROGRAMS = ["traverse", "clone_drop", "data", "green"]
-K_PROGS = ["f0", "l0", "c0:1", "f0 f1", "f0 s1", "l0 p1", "f0 d0", "k0 d0 d1", "d0", "f0 k1 d0", "S0:5", "T0:7 G0", "f0 S1:3 X1", "c0:2 d0"]
+# (no data operations here: the node data lives inside its RwLock, so how the data methods lock is not a data-race question but
+# C18's; a change there must not disturb this check -- the Miri program `data` still runs them free-running)
+K_PROGS = ["f0", "l0", "c0:1", "f0 f1", "f0 s1", "l0 p1", "f0 d0", "k0 d0 d1", "d0", "f0 k1 d0", "c0:2 d0", "l0 k1 d0 d1", "f0 f1 d0"]
 
 
-def miri(program, lo, hi, timeout=1500):
+def miri(program, lo, hi, timeout=1500, leaks=True):
     env = dict(os.environ)
-    env.update({"MIRIFLAGS": "-Zmiri-many-seeds=%d..%d" % (lo, hi), "CARGO_NET_OFFLINE": "true",
+    # (a leak is C06's business, not a data race: C07 runs Miri with its leak check off)
+    env.update({"MIRIFLAGS": "-Zmiri-many-seeds=%d..%d%s" % (lo, hi, "" if leaks else " -Zmiri-ignore-leaks"), "CARGO_NET_OFFLINE": "true",
                 "CARGO_TARGET_DIR": os.path.join(MIRI_DIR, "target")})
     lock = os.path.join(MIRI_DIR, "Cargo.lock")
     cur = open(os.path.join(core.REPO, "Cargo.lock")).read()
@@ -90,11 +93,11 @@ class C07(Property):
         for c in cases:
             if c.startswith("M "):
                 _, prog, lo, hi = c.split(" ")
-                r = miri(prog, int(lo), int(hi))
+                r = miri(prog, int(lo), int(hi), leaks=False)
                 if r.startswith("UB") and int(hi) - int(lo) > 1:
                     # which seed?  (for the replay)
                     for sd in range(int(lo), int(hi)):
-                        if miri(prog, sd, sd + 1).startswith("UB"):
+                        if miri(prog, sd, sd + 1, leaks=False).startswith("UB"):
                             r += " (first failing seed %d)" % sd
                             break
                 out.append(r)
@@ -106,7 +109,10 @@ class C07(Property):
         p = line.split(" || ")
         if len(p) != 3:
             return re.sub(r" \(first failing seed \d+\)", "", line)
-        return CR.strip_markers(p[0])
+        # the slot protocol and the counter: slot locks, slot accesses, counter updates with their orderings, allocation and
+        # free.  (The node data lives INSIDE its RwLock — safe code cannot reach it without the lock — so how often the data
+        # lock is taken is C18's business, not a data-race question.)
+        return " ".join(x for x in CR.strip_markers(p[0]).split(" ") if x and x.split(":", 1)[1][0] not in "DdEe")
 
     def spec(self, case, impl):
         if case.startswith("M "):
